@@ -233,6 +233,7 @@ func init() {
 			"R-DECODEEXIT - the failure branch of a Decode inside a message loop cannot lead back to it; R-RECOVER covers CallSignal as well as CallStep. R-FRESHDEC - the target of every Decode inside a message loop is allocated per iteration (a message that omits a field cannot inherit the previous message's). NOT decided: byte-level behaviour of the CBOR decoder on truncated input; behaviour of user step code.",
 		Assumptions: []string{"channel semantics of Go (send on closed channel panics; send without receiver blocks)"},
 		Rules: []func(*Ctx){
+			func(c *Ctx) { c.rulePluginPanic("R-PLUGINPANIC") },
 			func(c *Ctx) { c.ruleFreshDecode("R-FRESHDEC", c.scopePkg("atp")); c.R.Floor("R-FRESHDEC", 2) },
 			func(c *Ctx) { c.ruleDecodeExit("R-DECODEEXIT", c.scopePkg("atp")); c.R.Floor("R-DECODEEXIT", 2) },
 			func(c *Ctx) { c.ruleChan("R-CHAN") },
